@@ -1,5 +1,71 @@
-"""C18 - Curved primitives match their mathematical shapes and each other  (metadata; generators live here and/or in props/C18_*.py parts)"""
-CLAIMED = False   # set True by the owner once ./check C18 passes with real theorems
+"""C18 - Curved primitives match their mathematical shapes and each other
+(metadata + the Circle/Ellipse integer part; rounded rectangle / arc / sector clauses live in props/C18_*.py parts)"""
+from common import *
+
 LEVEL = 'proof'
-LEVEL_TEXT = 'TODO'
-LEVEL_NOTE = 'TODO'
+POSITIONS = [(0, 0), (-7, 3), (-30, -41), (5, -2)]
+
+
+def cases(tier, rng):
+    # model <-> code tie of contains()/points() for circles and ellipses (same suites as C05), incl. equal axes
+    N = 16 if tier == 'quick' else 40
+    for d in range(0, N + 1):
+        x, y = POSITIONS[d % 4]
+        yield J('circ_geom', x, y, d, 2)
+        yield J('ell_geom', x, y, d, d, 2)
+    n = 100 if tier == 'quick' else 1500
+    for _ in range(n):
+        x, y = coord(rng), coord(rng)
+        yield J('circ_geom', x, y, rng.randrange(0, 80), 2)
+        w, h = rng.choice([(rng.randrange(0, 60), rng.randrange(0, 60)), (rng.randrange(0, 6), rng.randrange(0, 100)),
+                           (rng.randrange(0, 100), rng.randrange(0, 6))])
+        yield J('ell_geom', x, y, w, h, 2)
+
+
+def search(tier, rng):
+    N = 48 if tier == 'quick' else 128
+    for d in range(0, N + 1):
+        x, y = POSITIONS[d % 4]
+        yield J('p_circ_c18', x, y, d)
+    M = 24 if tier == 'quick' else 64
+    k = 0
+    for w in range(0, M + 1):
+        for h in range(0, M + 1):
+            x, y = POSITIONS[k % 4]
+            k += 1
+            yield J('p_ell_c18', x, y, w, h)
+    n = 300 if tier == 'quick' else 5000
+    for _ in range(n):
+        x, y = coord(rng), coord(rng)
+        yield J('p_circ_c18', x, y, rng.randrange(0, 200))
+        w, h = rng.choice([(rng.randrange(0, 120), rng.randrange(0, 120)), (rng.randrange(0, 6), rng.randrange(0, 300)),
+                           (rng.randrange(0, 300), rng.randrange(0, 6))])
+        yield J('p_ell_c18', x, y, w, h)
+
+
+def trivial(line, res):
+    return res in ('', 'none', '0') or res.endswith('PTS  IN ')
+
+
+RULE = ('Circle/Ellipse integer part: correspondence of contains() over box+margin and points() between extracted model and code for all '
+        'diameters 0..N as circle and as equal-axes ellipse (N=16 quick, 40 thorough) and random axis pairs (thin/flat included). '
+        'search: on the code, for ALL diameters 0..48/128 and ALL axis pairs up to 24/64 (+ random up to 200 / 300): half-pixel band '
+        'against the ideal circle/ellipse in exact integer arithmetic, mirror symmetry, row and column contiguity, circle touches its box, '
+        'circle == equal-axes ellipse for contains() and points(). non-trivial = the shape has a point.')
+EXHAUSTIVE = {'quick': False, 'thorough': False}
+ASSUMPTIONS = ['Circle/Ellipse part: band, symmetry and contiguity hold for all integers in the model (no range hypothesis except diameter / axes >= 1 '
+               'where stated); touches-box and points() equality need the top-left within +-2^29 and the diameter within 2^29; products are '
+               'unbounded integers in the model (machine ranges: C05 assumptions / C08)']
+TRUSTED = []
+PARTIAL = []
+
+LEVEL_TEXT = ('Proof (integer part, Circle and Ellipse): Coq theorems over the Gallina models of Circle::contains / Ellipse::contains '
+              '(EllipseContains with its circle special case and the diameter <= 4 threshold correction, as written) state: every accepted '
+              'pixel centre lies inside the ideal circle / ellipse grown by half a pixel and every pixel centre inside the ideal shape shrunk '
+              'by half a pixel is accepted; both shapes are mirror symmetric about both centre lines; every row and column is one contiguous '
+              'run; a circle of diameter >= 1 has an accepted point on each side of its bounding box; the ellipse with equal axes has exactly '
+              "the circle's contains() and points(). Rounded-rectangle, arc and sector clauses: see the parts.")
+LEVEL_NOTE = ('Trusted: Coq kernel, extraction (ExtrOcamlBasic), the OCaml/Rust drivers; the hand-written model is validated by differential '
+              'testing, not proved equal to the Rust code.')
+
+CLAIMED = True
